@@ -1,5 +1,6 @@
 import Dashu.Proofs.Ratio.Extra
 import Dashu.Proofs.Ratio.Const
+import Dashu.Proofs.Ratio.Hist
 /-
   C04 — Rational arithmetic is exact and RBig stays in lowest terms.
 
@@ -315,6 +316,113 @@ theorem history_values (ops : List Op) (env : List Reg) (henv : ∀ r ∈ env, r
 example : (run [.bin .add 0 1, .bin .mul 2 2, .bin .div 3 0, .un .inv 4, .intR .add 5 (-5)]
     [⟨.R, ⟨3, 4⟩⟩, ⟨.R, ⟨-5, 6⟩⟩]).1.map (·.q) =
     [⟨3, 4⟩, ⟨-5, 6⟩, ⟨-1, 12⟩, ⟨1, 144⟩, ⟨1, 108⟩, ⟨108, 1⟩, ⟨103, 1⟩] := by decide
+
+-- ------------------------------------------------------------------ histories: Relaxed = RBig, reduce2 invariant (round 5)
+
+/-- **history theorem, Relaxed = RBig**: the same program run on two register files denoting the
+    same numbers (one all-`Relaxed`, one all-`RBig`, or any mix), neither run malformed: both runs
+    stop at the same step in the same way (done, or `DivideByZero`) and every register ever
+    produced denotes the same number in both. -/
+theorem history_relaxed_equals_rbig (ops : List Op) (e1 e2 : List Reg) (h1 : ∀ r ∈ e1, r.Inv)
+    (h2 : ∀ r ∈ e2, r.Inv) (hv : e1.map Reg.val = e2.map Reg.val)
+    (nb1 : (run ops e1).2 ≠ .bad) (nb2 : (run ops e2).2 ≠ .bad) :
+    (run ops e1).1.map Reg.val = (run ops e2).1.map Reg.val ∧
+    (((run ops e1).2 = .done ∧ (run ops e2).2 = .done) ∨
+     ((run ops e1).2 = .panic .divideByZero ∧ (run ops e2).2 = .panic .divideByZero)) :=
+  run_vals_agree ops e1 e2 h1 h2 hv nb1 nb2
+
+/-- … and as stored pairs: canonicalising register `i` of the first run gives exactly the
+    numerator/denominator stored in register `i` of the second run wherever that one is an `RBig` -/
+theorem history_canonicalize_equals_rbig (ops : List Op) (e1 e2 : List Reg) (h1 : ∀ r ∈ e1, r.Inv)
+    (h2 : ∀ r ∈ e2, r.Inv) (hv : e1.map Reg.val = e2.map Reg.val)
+    (nb1 : (run ops e1).2 ≠ .bad) (nb2 : (run ops e2).2 ≠ .bad)
+    (i : Nat) (r1 r2 : Reg) (g1 : (run ops e1).1[i]? = some r1) (g2 : (run ops e2).1[i]? = some r2)
+    (hk : r2.kind = .R) : reduce r1.q = .ok r2.q :=
+  run_canonicalize_agree ops e1 e2 h1 h2 hv nb1 nb2 i r1 r2 g1 g2 hk
+
+/-- **Relaxed history theorem** (the `reduce2` invariant over all histories): every register ever
+    produced by a program over `Relaxed` registers that never canonicalises is a `Relaxed`, has a
+    positive denominator, is not even/even, and (unless zero) is a fixed point of `Repr::reduce2`. -/
+theorem history_relaxed_reduce2_invariant (ops : List Op) (env : List Reg) (hk : ∀ r ∈ env, r.kind = .X)
+    (henv : ∀ r ∈ env, RelaxedInv r.q) (hops : ∀ op ∈ ops, op.noCanon) :
+    ∀ r ∈ (run ops env).1, r.kind = .X ∧ RelaxedInv r.q ∧ (r.q.num ≠ 0 → reduce2 r.q = .ok r.q) :=
+  run_relaxed_inv ops env hk henv hops
+
+-- non-vacuity: the same program on Relaxed 9/6, 15/9 and on RBig 3/2, 5/3
+example : (run [.bin .mul 0 1, .un .inv 2] [⟨.X, ⟨9, 6⟩⟩, ⟨.X, ⟨15, 9⟩⟩]).1.map (·.q)
+      = [⟨9, 6⟩, ⟨15, 9⟩, ⟨135, 54⟩, ⟨54, 135⟩] ∧
+    (run [.bin .mul 0 1, .un .inv 2] [⟨.R, ⟨3, 2⟩⟩, ⟨.R, ⟨5, 3⟩⟩]).1.map (·.q)
+      = [⟨3, 2⟩, ⟨5, 3⟩, ⟨5, 2⟩, ⟨2, 5⟩] ∧
+    reduce ⟨54, 135⟩ = .ok ⟨2, 5⟩ ∧ Op.noCanon (.bin .mul 0 1) ∧ Op.noCanon (.un .inv 2) := by
+  refine ⟨?_, by decide, by decide, trivial, trivial⟩
+  simp [run, step, evalBin, evalUn, liftQ, liftR, X.mul, inv, xFromParts, reduce2, tz, sgn, Except.map]
+
+-- ------------------------------------------------------------------ sign corners of inv / pow (round 5)
+
+/-- `Inverse`: for either sign of the operand the result has the positive denominator `|numerator|`,
+    the magnitude of the old denominator as numerator and the operand's sign -/
+theorem inv_sign_corner (x : Q) (hn : x.num ≠ 0) :
+    ∃ r, inv x = .ok r ∧ r.den = x.num.natAbs ∧ 0 < r.den ∧ r.num.natAbs = x.den ∧
+      (0 < x.den → (r.num < 0 ↔ x.num < 0)) :=
+  inv_sign x hn
+
+theorem repr_inv_involutive (x : Q) (hd : 0 < x.den) (hn : x.num ≠ 0) : (inv x >>= inv) = .ok x :=
+  inv_inv x hd hn
+
+/-- `x.inv()` stores the same pair as `RBig::ONE / x`, same panic for zero -/
+theorem rbig_inv_is_one_div (x : Q) (hx : Reduced x) : inv x = R.div Q.one x :=
+  rbig_inv_eq_one_div x hx
+
+/-- `pow(0)` is 1/1 for every operand (also `0^0`); zero stays 0/1 under positive powers;
+    `(±1)^n` for every `n` -/
+theorem pow_corners (x : Q) (n : Nat) :
+    pow x 0 = Q.one ∧ pow x 1 = x ∧ (0 < n → pow Q.zero n = Q.zero) ∧ pow Q.one n = Q.one ∧
+    pow Q.negOne n = ⟨if n % 2 = 0 then 1 else -1, 1⟩ :=
+  ⟨pow_zero_exp x, pow_one_exp x, pow_zero_base n, pow_one_base n, pow_neg_one n⟩
+
+/-- the power kernels the driver executes (`IBig::pow`: sign by the parity of the exponent, magnitude by `UBig::pow`
+    with its shortcuts for exponent 0 and the bases 0, 1) are `^`, hence `Repr::pow` is component-wise `^`; and the
+    specification's `qpow` (which spares the long product for the bases 0, ±1) IS `x ^ n` — for every exponent -/
+theorem pow_kernels_are_powers (x : Q) (a : Int) (b n : Nat) (v : Rat) :
+    upowK b n = b ^ n ∧ ipowK a n = a ^ n ∧ pow x n = ⟨x.num ^ n, x.den ^ n⟩ ∧ Spec.qpow v n = v ^ n :=
+  ⟨upowK_eq b n, ipowK_eq a n, pow_def x n, Spec.qpow_eq v n⟩
+
+/-- sign of a power: positive denominator; negative numerator exactly for negative base, odd exponent -/
+theorem pow_sign_corner (x : Q) (n : Nat) (hd : 0 < x.den) :
+    0 < (pow x n).den ∧ ((pow x n).num < 0 ↔ (x.num < 0 ∧ n % 2 = 1)) :=
+  pow_sign x n hd
+
+/-- `pow` agrees with repeated `RBig *` as stored pairs -/
+theorem rbig_pow_succ_is_mul (x : Q) (n : Nat) (hx : Reduced x) : R.mul (pow x n) x = .ok (pow x (n + 1)) :=
+  rbig_pow_succ x n hx
+
+example : inv ⟨-3, 4⟩ = .ok ⟨-4, 3⟩ ∧ (inv ⟨-3, 4⟩ >>= inv) = .ok ⟨-3, 4⟩ ∧ R.div Q.one ⟨-3, 4⟩ = .ok ⟨-4, 3⟩ := by decide
+example : ipowK (-1) (2 ^ 64 - 1) = -1 ∧ pow Q.negOne (2 ^ 64 - 1) = Q.negOne ∧ Spec.qpow (-1) (2 ^ 64 - 2) = 1 := by decide
+example : pow ⟨-2, 3⟩ 3 = ⟨-8, 27⟩ ∧ pow ⟨-2, 3⟩ 4 = ⟨16, 81⟩ ∧ R.mul (pow ⟨-2, 3⟩ 3) ⟨-2, 3⟩ = .ok ⟨16, 81⟩ := by decide
+
+-- ------------------------------------------------------------------ predicates (rbig.rs, sign.rs; round 5)
+
+/-- `is_zero`, `sign` (both types): read off the numerator, they decide `value = 0` / `value < 0` -/
+theorem predicates_exact (k : Kind) (x : Q) (hx : k.Inv x) :
+    (isZero x = true ↔ x.val = 0) ∧ (isNegative x = true ↔ x.val < 0) :=
+  preds_val x hx.den_pos
+
+/-- `RBig::is_one` (1/1 stored) and `RBig::is_int` (denominator 1) decide `value = 1` / "the value is an integer" -/
+theorem rbig_is_one_is_int_exact (x : Q) (hx : Reduced x) :
+    (R.isOne x = true ↔ x.val = 1) ∧ (R.isInt x = true ↔ x.val.den = 1) :=
+  rbig_isOne_isInt_val x hx
+
+/-- `Relaxed::is_one` compares numerator with denominator (3/3 is one): it decides `value = 1`, so it agrees
+    with `RBig::is_one` of the RBig denoting the same number -/
+theorem relaxed_is_one_exact (x r : Q) (hx : RelaxedInv x) (hr : Reduced r) (hv : x.val = r.val) :
+    (X.isOne x = true ↔ x.val = 1) ∧ X.isOne x = R.isOne r := by
+  have h1 := relaxed_isOne_val x hx.den_pos
+  refine ⟨h1, ?_⟩
+  have h2 := (rbig_isOne_isInt_val r hr).1
+  rw [Bool.eq_iff_iff, h1, h2, hv]
+
+example : RelaxedInv ⟨3, 3⟩ ∧ X.isOne ⟨3, 3⟩ = true ∧ R.isOne ⟨1, 1⟩ = true ∧ R.isInt ⟨-2, 1⟩ = true ∧
+    isNegative ⟨-2, 1⟩ = true ∧ isZero ⟨0, 1⟩ = true := by decide
 
 -- ------------------------------------------------------------------ non-vacuity: concrete values meeting the hypotheses
 
